@@ -31,18 +31,18 @@ More   == l < Len(T.events)
 
 CfOf(t) == [obf |-> t.cf.obf, host |-> t.cf.host, mac |-> t.cf.mac, kws |-> Rng(t.cf.kws), pats |-> Rng(t.cf.pats),
             regex |-> t.cf.regex, sysdom |-> t.cf.sysdom, fam |-> t.cf.fam]
-SpOf(s) == [nored |-> s.nored, noobf |-> Rng(s.noobf), width |-> s.width]
+SpOf(s) == [nored |-> s.nored, noobf |-> Rng(s.noobf), width |-> s.width, allow |-> s.allow]
 ContentOf(t) == IF t.mode = "runs"
                   THEN [s \in DOMAIN t.content |-> [sp |-> SpOf(t.content[s].sp), lines |-> t.content[s].lines]]
                   ELSE <<>>
 
 InitFrom(t) ==
     /\ phase = "idle" /\ cf = CfOf(t) /\ ord = <<>> /\ run = 1 /\ content = ContentOf(t) /\ si = 0
-    /\ cur = [i |-> 0, acc |-> <<>>] /\ db = <<>> /\ seen = {} /\ cnt = 0 /\ outs = <<>>
+    /\ cur = [i |-> 0, acc |-> <<>>, bud |-> 0] /\ db = <<>> /\ seen = {} /\ cnt = 0 /\ outs = <<>>
     /\ report = {} /\ runs = <<>> /\ selfs = {}
 NextFrom(t) ==
     /\ phase' = "idle" /\ cf' = CfOf(t) /\ ord' = <<>> /\ run' = 1 /\ content' = ContentOf(t) /\ si' = 0
-    /\ cur' = [i |-> 0, acc |-> <<>>] /\ db' = <<>> /\ seen' = {} /\ cnt' = 0 /\ outs' = <<>>
+    /\ cur' = [i |-> 0, acc |-> <<>>, bud |-> 0] /\ db' = <<>> /\ seen' = {} /\ cnt' = 0 /\ outs' = <<>>
     /\ report' = {} /\ runs' = <<>> /\ selfs' = {}
 
 -----------------------------------------------------------------------------
@@ -121,7 +121,9 @@ SpecsOK(r) == \A s \in DOMAIN r.specs :
                  /\ BlankOK(x.out, x.stored, c.lines, c.sp, x.path)
 (* a run is compared with the first one as soon as it is read (Deterministic); the orders of all runs are      *)
 (* compared at the end of the trace (OneOrder), so that a case whose OUTPUT depends on the order is named so *)
-RunOK == LET r == Ev IN SpecsOK(r) /\ OrderWithin(r) /\ SameOut(r)
+(* the caller's configuration objects (the allow list of the spec) are inputs, not state *)
+NoSideEffect(r) == \A s \in DOMAIN r.specs : ~r.specs[s].mutated
+RunOK == LET r == Ev IN SpecsOK(r) /\ OrderWithin(r) /\ SameOut(r) /\ NoSideEffect(r)
 
 Accepts ==
     CASE Ev.ev = "spec"    -> TRUE
@@ -176,7 +178,9 @@ ConsKind(toks, obs, j) ==
            ELSE IF obs[j].st = "other" THEN "corrupted-rendering"
            ELSE "second-substitute"
 DiagCons(toks, obs) ==
-    LET j == CHOOSE j \in ConsBad(toks, obs) : TRUE
+    LET bad == ConsBad(toks, obs)
+        clr == {i \in bad : obs[i].st \in {"kept", "self"}}       \* name an occurrence left in clear text first
+        j == IF clr # {} THEN CHOOSE i \in clr : TRUE ELSE CHOOSE i \in bad : TRUE
         p == OrigOf(toks[j])
         f == Feat(p[1], seen \cup OccIn(toks)) IN
     "Consistent:" \o p[1] \o ":" \o f \o ":" \o ConsKind(toks, obs, j) \o (IF f = "plain" THEN "" ELSE ":" \o Which(p))
@@ -228,7 +232,9 @@ DiagRun ==
         IF \E j \in DOMAIN x.out : x.out[j].src # 0 /\ x.out[j].nm # 1 THEN "ProvenanceMonotone:not-one-source"
         ELSE IF ~ProvOK(x.out, content[x.si].lines) THEN "ProvenanceMonotone:order"
         ELSE "BlankCollapses:" \o x.path
-    ELSE IF ~SameOut(r) THEN "Deterministic:" \o cf.fam \o ":across-hash-seeds"
+    ELSE IF ~SameOut(r) THEN "Deterministic:" \o cf.fam \o
+             (IF r.hs = runs[1].hs THEN ":same-process-fresh-cleaner" ELSE ":across-hash-seeds")
+    ELSE IF ~NoSideEffect(r) THEN "Deterministic:" \o cf.fam \o ":caller-allowlist-consumed"
     ELSE "OneOrder:within-one-process"
 
 Diagnose ==
@@ -237,6 +243,7 @@ Diagnose ==
       [] Ev.ev = "report"  -> DiagReport
       [] Ev.ev = "run"     -> DiagRun
       [] Ev.ev = "endruns" -> "OneOrder:across-hash-seeds"
+      [] Ev.ev = "raised"  -> "Raised:" \o Ev.stage \o ":" \o Ev.exc      \* the cleaner raised on a legal input: no step of the spec
       [] OTHER -> "unknown-event"
 
 Advance ==
